@@ -81,7 +81,24 @@ def make_case(seed, i):
     S = gen.make_scenario(seed, prof, i)
     if rng.random() < 0.15:
         S["options"]["random_seed"] = 0          # a valid and popular seed; falsy in Python
+    fitfault = rng.random() < 0.3
+    if fitfault:
+        # the same GP-fit failures (fault kind F4) hit S in every variant: the recovery paths must not
+        # read anything that earlier failures in this process left behind. Faults are spread over the
+        # first fit and the local refits; small hyperparameter designs make the restart point matter.
+        S["faults"] = [dict(seam="fit", k=rng.randrange(1, 13), len=rng.randrange(1, 4), kind="mid") for _ in range(rng.randrange(2, 6))]
+        ni = gen._choice(rng, [2, 8, 32, 128])
+        S["options"].update(gp_train_n_init=ni, gp_train_n_init_final=min(ni, gen._choice(rng, [1, 2, 8])))
+        S["options"]["max_fun_evals"] = max(int(S["options"].get("max_fun_evals", 40)), 40)
     pre = gen_ops(rng, seed, f"pre{i}", rng.randrange(0, 5), S)
+    if fitfault:
+        for o in pre:
+            if o["op"] == "opt":
+                o["scn"]["faults"] = [dict(seam="fit", k=kk, len=rng.randrange(1, 4), kind="mid") for kk in (1, 2, 4, 6, 8)]
+        if not any(o["op"] == "opt" for o in pre):
+            sb = sibling(rng, S)
+            sb["faults"] = [dict(seam="fit", k=kk, len=rng.randrange(1, 4), kind="mid") for kk in (1, 2, 4, 6, 8)]
+            pre.append(dict(op="opt", scn=sb))
     between = gen_ops(rng, seed, f"btw{i}", rng.randrange(0, 3), S) if rng.random() < 0.5 else []
     if S["options"].get("random_seed") == 0 and not any(o["op"] in ("draw", "reseed", "opt", "construct") for o in between):
         between = between + [dict(op="draw", n=rng.randrange(1, 50), normal=rng.randrange(0, 5))]
@@ -100,7 +117,7 @@ def variant(arg):
     if arg.get("clock"):
         S["clock"] = arg["clock"]
     r = run.run_scenario(S)
-    return dict(sem=r["sem_digest"], outcome=r["outcome"], n_calls=r["n_calls"], result=r.get("result"),
+    return dict(sem=r["sem_digest"], outcome=r["outcome"], n_calls=r["n_calls"], result=r.get("result"), fired=r.get("fault_fired"),
                 exc=(r.get("exc") or {}).get("type"), traj=r["traj"], n_polls=r["n_polls"])
 
 
@@ -181,9 +198,12 @@ def main(tier):
         outcomes=dict(oc), distinct_history_shapes=len(shapes), history_shapes_top=dict(shapes.most_common(8)),
         x0_omitted=sum(1 for c in cases if c["S"]["x0"] is None),
         noise_from_global_rng=sum(1 for c in cases if (c["S"].get("noise") or {}).get("rng") == "global"),
-        fault_fired={"history op (F7)": sum(len(c["pre"]) + len(c["between"]) for c in cases), "clock schedule change (F6)": len(cases)},
+        fit_fault_cases=dict(generated=sum(1 for c in cases if c["S"].get("faults")),
+                             fired_in_reference=sum(1 for i in range(len(cases)) if outs[3 * i] is not None and outs[3 * i].get("fired"))),
+        fault_fired={"GP.fit LinAlgError in the run under test and in earlier runs (F4)": sum(sum((outs[3 * i].get("fired") or {}).values()) for i in range(len(cases)) if outs[3 * i] is not None),
+                     "history op (F7)": sum(len(c["pre"]) + len(c["between"]) for c in cases), "clock schedule change (F6)": len(cases)},
         runs_per_hour=int(len(tasks) / max(wall, 1e-9) * 3600),
-        components=dict(real=["pybads", "gpyreg", "scipy", "numpy"], stub=["target", "constraint function", "clock"], fault_shims=[]),
+        components=dict(real=["pybads", "gpyreg", "scipy", "numpy"], stub=["target", "constraint function", "clock"], fault_shims=["GP.fit raises LinAlgError after replacing the training data (30% of cases, same plan in every variant; earlier runs in the history fail too)"]),
     )
     return rep.finish(cov, runlevel.COMMON_ASSUME + [
         "interleaving other consumers of NumPy's global generator *during* the run is outside the statement and not generated",
